@@ -185,30 +185,12 @@ func genRT(t *rapid.T) anyCase {
 
 // ---- selection -----------------------------------------------------------------------------------
 
-var segs = []string{"p", "pfoo", "p-x", "q", "pq", "p_", "p.q", "exp"}
-var sibSuffix = []string{"foo", "-x", "q", "_", ".q", "p"}
 var names = []string{"t", "u", "_t#x", "__t#x_y", "_u#a", "t#x", "_t", "all_t"}
 
-func genPkg(t *rapid.T, label string, maxDepth int) string {
-	d := rapid.IntRange(0, maxDepth).Draw(t, label+"_depth")
-	parts := make([]string, d)
-	for i := range parts {
-		parts[i] = rapid.SampledFrom(segs).Draw(t, label+"_seg")
-	}
-	return strings.Join(parts, "/")
-}
-
-func join(p, s string) string {
-	if p == "" {
-		return s
-	}
-	return p + "/" + s
-}
-
 func genSel(t *rapid.T) anyCase {
-	p := genPkg(t, "pat", 3)
+	p := lib.GenPkg(t, "pat", 3)
 	if p == "" && rapid.IntRange(0, 3).Draw(t, "keeproot") != 0 {
-		p = rapid.SampledFrom(segs).Draw(t, "pat_seg1")
+		p = rapid.SampledFrom(lib.PkgSegs).Draw(t, "pat_seg1")
 	}
 	var pat lib.RefLabel
 	switch k := rapid.IntRange(0, 9).Draw(t, "patkind"); {
@@ -219,50 +201,20 @@ func genSel(t *rapid.T) anyCase {
 	default:
 		pat = lib.RefLabel{Pkg: p, Name: rapid.SampledFrom([]string{"t", "u"}).Draw(t, "patname")}
 	}
-	var q string
-	switch k := rapid.IntRange(0, 19).Draw(t, "rel"); {
-	case k < 3:
-		q = p
-	case k < 7:
-		q = join(p, rapid.SampledFrom(segs).Draw(t, "child"))
-	case k < 12:
-		if p == "" {
-			q = rapid.SampledFrom(segs).Draw(t, "top")
-		} else {
-			q = p + rapid.SampledFrom(sibSuffix).Draw(t, "suffix")
-		}
-	case k < 14:
-		if p == "" {
-			q = join(rapid.SampledFrom(segs).Draw(t, "top"), rapid.SampledFrom(segs).Draw(t, "child"))
-		} else {
-			q = join(p+rapid.SampledFrom(sibSuffix).Draw(t, "suffix"), rapid.SampledFrom(segs).Draw(t, "child"))
-		}
-	case k < 15:
-		if i := strings.LastIndexByte(p, '/'); i >= 0 {
-			q = p[:i]
-		}
-	case k < 16:
-		if len(p) > 1 && p[len(p)-2] != '/' {
-			q = p[:len(p)-1]
-		} else {
-			q = p
-		}
-	default:
-		q = genPkg(t, "other", 3)
-	}
+	q := lib.GenRelatedPkg(t, "tgt", p)
 	c := selCase{Pat: pat.String(), Pkg: q, Name: rapid.SampledFrom(names).Draw(t, "name")}
 	nTree := rapid.IntRange(0, 5).Draw(t, "ntree")
 	for i := 0; i < nTree; i++ {
 		var x string
 		switch rapid.IntRange(0, 3).Draw(t, "treekind") {
 		case 0:
-			x = genPkg(t, "tree", 3)
+			x = lib.GenPkg(t, "tree", 3)
 		case 1:
-			x = join(p, rapid.SampledFrom(segs).Draw(t, "tchild"))
+			x = lib.JoinPkg(p, rapid.SampledFrom(lib.PkgSegs).Draw(t, "tchild"))
 		case 2:
-			x = p + rapid.SampledFrom(sibSuffix).Draw(t, "tsuffix")
+			x = p + rapid.SampledFrom(lib.SiblingSuffixes).Draw(t, "tsuffix")
 		default:
-			x = join(q, rapid.SampledFrom(segs).Draw(t, "tchild"))
+			x = lib.JoinPkg(q, rapid.SampledFrom(lib.PkgSegs).Draw(t, "tchild"))
 		}
 		c.Tree = append(c.Tree, x)
 	}
